@@ -37,7 +37,7 @@ static std::vector<Op> parse_ops(const std::string& s, int nm) {
                 if (f.size() < 2 || !valid(f[1])) continue;
                 op.quads.push_back(f[1]);
                 break;
-            case 'E':
+            case 'E': case 'R':
                 if (f.size() < 2 || !valid(f[1])) continue;
                 op.quads.push_back(f[1]);
                 op.triple = f.size() > 2 ? std::abs(atoi(f[2].c_str())) % NTRIPLES : 0;
@@ -55,7 +55,7 @@ static std::string ops_str(const std::vector<Op>& ops) {
         s += op.kind;
         if (op.kind == 'F' || op.kind == 'P') { s += ':'; if (op.all) s += '*'; else for (size_t i = 0; i < op.quads.size(); i++) { if (i) s += ','; s += op.quads[i]; } }
         else if (op.kind == 'C') { s += op.split ? ":s" : ":n"; if (!op.freqs.empty()) s += ":" + op.freqs; }
-        else { s += ':' + op.quads[0]; if (op.kind == 'E') s += ':' + std::to_string(op.triple); }
+        else { s += ':' + op.quads[0]; if (op.kind == 'E' || op.kind == 'R') s += ':' + std::to_string(op.triple); }
     }
     return s;
 }
@@ -161,6 +161,19 @@ static void run_history(const RefKey& k, const std::vector<Op>& ops, RankReport&
                     static_cast<TwoParticleGF&>(Chi(quad(op.quads[0]))).compute(false, std::vector<models::FreqTuple>(), comm);
                     model.lift(op.quads[0], COMPUTED); rep.nontrivial = true;
                     break; }
+                case 'R': {
+                    // "the element obtained on demand": keep the reference returned by the lookup and do everything through it
+                    if (!Chi.isInContainer(quad(op.quads[0]))) rep.created_on_demand++;
+                    ElementWithPermFreq<TwoParticleGF>& e = Chi(quad(op.quads[0]));
+                    static_cast<TwoParticleGF&>(e).prepare();
+                    static_cast<TwoParticleGF&>(e).compute(false, std::vector<models::FreqTuple>(), comm);
+                    model.lift(op.quads[0], COMPUTED); rep.nontrivial = true;
+                    const long* t = TRIPLES[op.triple];
+                    ComplexType v = e(t[0], t[1], t[2]);
+                    rep.evals++;
+                    ComplexType r = ref.vals.at(op.quads[0])[op.triple];
+                    if (!close_enough(v, r)) { std::ostringstream d; d << where << ": the element handle returned by the on-demand lookup of " << op.quads[0] << " evaluates (" << t[0] << "," << t[1] << "," << t[2] << ") to " << v << ", directly constructed 2PGF gives " << r; fail("value-mismatch", d.str()); }
+                    break; }
                 case 'I': {
                     bool in = Chi.isInContainer(quad(op.quads[0]));
                     if (in != (model.get(op.quads[0]) != ABSENT)) fail("listing-mismatch", where + ": isInContainer(" + op.quads[0] + ") = " + std::to_string(in) + " but the history " + (in ? "never listed it" : "listed it"));
@@ -255,7 +268,8 @@ static std::string gen_ops(hc::Rng& r, int nm) {
         else if (x < 66) op = "L:" + r.pick(pool);
         else if (x < 76) op = "p:" + r.pick(pool);
         else if (x < 86) op = "c:" + r.pick(pool);
-        else if (x < 98) op = "E:" + r.pick(pool) + ":" + std::to_string(r.below(NTRIPLES));
+        else if (x < 93) op = "E:" + r.pick(pool) + ":" + std::to_string(r.below(NTRIPLES));
+        else if (x < 98) op = "R:" + r.pick(pool) + ":" + std::to_string(r.below(NTRIPLES));
         else op = "I:" + r.pick(pool);
         if (!s.empty()) s += '|';
         s += op;
@@ -268,7 +282,7 @@ static hc::Outcome run_one(hc::RunSpec& rs) {
     hc::Rng r(rs.seed ^ 0xC13C13ULL);
     int P; { int x = r.below(100); P = x < 35 ? 1 : x < 65 ? 2 : x < 85 ? 3 : 4; }
     c.def("P", P); P = std::max(1, std::min(8, (int)c.i("P"))); c.set("P", P);
-    int model; { int x = r.below(100); model = x < 40 ? models::ATOM : x < 80 ? models::DIMER : x < 88 ? models::ATOM_FIELD : x < 94 ? models::DIMER_FIELD : models::KANAMORI; }
+    int model; { int x = r.below(100); model = x < 40 ? models::ATOM : x < 80 ? models::DIMER : x < 86 ? models::ATOM_FIELD : x < 91 ? models::DIMER_FIELD : x < 95 ? models::ATOMS2 : models::KANAMORI; }
     c.def("model", model); model = (int)c.i("model") % models::N_MODELS; if (model < 0 || model == models::CHAIN3) model = 0; c.set("model", model);
     c.def("mp", r.pct(15) ? 0 : r.range(1, 100000));
     c.def("nosym", r.pct(10));
